@@ -47,6 +47,24 @@ class BaseElementLocator
 
     BaseElementLocator() = default;
 
+    // A moved-from locator describes an empty vector without a block: it must not keep the end of the data it gave away.
+    BaseElementLocator(BaseElementLocator&& other) noexcept
+        : element_addresses_(std::move(other.element_addresses_)), last_element_(other.last_element_)
+    {
+        other.last_element_ = nullptr;
+    }
+
+    BaseElementLocator& operator=(BaseElementLocator&& other) noexcept
+    {
+        if (this != &other)
+        {
+            element_addresses_ = std::move(other.element_addresses_);
+            last_element_ = other.last_element_;
+            other.last_element_ = nullptr;
+        }
+        return *this;
+    }
+
     template <class Allocator>
     explicit BaseElementLocator(const BaseElementLocator& locator, std::byte* old_memory_begin,
                                 std::size_t /*old_max_element_count*/, std::byte* new_memory_begin,
